@@ -660,16 +660,27 @@ def shard(key):
     return h % n
 
 
-def pick_keys(r):
-    """watched key, an unrelated key in the same shard, one in another shard, the second argument key"""
-    # valid UTF-8 only: a script mangles other bytes in ARGV (a C12 finding), which would send the EVAL path to another key
-    wk = r.choice([b"wk", b"watched:1", b"w\xc3\xa9:k", b"k", b"user:1000:balance", b"w k"])
-    cands = [b"o%d" % i for i in range(200)]
+# watched key names by class: keys are binary safe, every cell family draws from all classes
+KEY_POOL = [
+    ("ascii", b"wk"), ("ascii", b"user:1000:balance"), ("ascii", b"w k"),
+    ("utf8", b"w\xc3\xa9:k"),
+    ("invalid-utf8", b"w\xff\xfek"), ("invalid-utf8", b"\xc3\x28:wk"), ("invalid-utf8", b"\x80\x81\x9f:wk"), ("invalid-utf8", b"wk:\xf0\x28\x8c\x28"),
+    ("nul", b"w\x00k"), ("crlf", b"w\r\nk"), ("empty", b""), ("1KiB", b"wk:" + b"\xfeK" * 510 + b"!"),
+]
+
+
+def key_set(r, cls, wk):
+    """the watched key with an unrelated key in its shard, one in another shard, and a third one"""
+    cands = [b"o%d" % i for i in range(300)]
     r.shuffle(cands)
     same = next(x for x in cands if shard(x) == shard(wk) and x != wk)
     diff = next(x for x in cands if shard(x) != shard(wk) and shard(x) != shard(PROBE))
     other = next(x for x in cands if x not in (same, diff))
-    return wk, same, diff, other
+    return {"cls": cls, "wk": wk, "same": same, "diff": diff, "other": other}
+
+
+def pick_key_sets(r):
+    return [key_set(r, cls, wk) for cls, wk in KEY_POOL]
 
 
 def run_path(s, path, cmd):
@@ -694,9 +705,9 @@ def finish_tx(s, tag):
     return s.do(A, ["EXEC"])
 
 
-def matrix_cell(s, label, args, ostate, state, path, wk, ok, watched=None, second=None):
+def matrix_cell(s, label, args, ostate, state, path, wk, ok, watched=None, second=None, key_class=None):
     """set `wk` up in `state`, WATCH `watched` (default wk), run the command through `path`, EXEC"""
-    cell = {"kind": "matrix", "cmd": label, "state": state, "path": path, "key": hx(wk)}
+    cell = {"kind": "matrix", "cmd": label, "state": state, "path": path, "key": hx(wk), "key_class": key_class}
     if second:
         cell.update({"second_key": hx(ok), "second_key_in": second, "second_key_before": ostate})
     s.begin(cell)
@@ -749,8 +760,72 @@ def expiry_all_types(s, wk, mode, rep):
         rep.nontrivial(("expiry", mode, t, st["impl"].split()[0], st["model"]))
 
 
-def scenarios(s, wk, same_k, diff_k, rep):
-    """named histories beyond the matrix; each ends with EXECs judged like every other EXEC"""
+# a write that really changes a key of the given state
+CHANGE = {"string": ["APPEND", K, "x"], "list": ["RPUSH", K, "x"], "set": ["SADD", K, "x"], "hash": ["HSET", K, "n", "1"],
+          "zset": ["ZADD", K, "9", "x"], "stream": ["XADD", K, "9-1", "f", "v"], "absent": ["SET", K, "new"]}
+
+
+def multi_watch_cells(s, r, rep, key_sets, tier, n_round):
+    """WATCH sets of 2..24 keys (one WATCH command, or several), of mixed types and absent keys, names of every class.
+    Between WATCH and EXEC exactly one key is changed (at the first, the last, a random position of the set), a strict
+    subset, all of them, or none (an unrelated key is written): "if ANY watched key changed".  Every path; repeated,
+    because the order in which the server visits its watch list differs from connection to connection."""
+    sizes = (2, 3, 5, 9, 24) if tier == "quick" else (2, 3, 4, 5, 7, 9, 16, 24)
+    repeats = 2 if tier == "quick" else 3
+    kinds = ["one-first", "one-last", "one-random", "subset", "all", "none"]
+    types = ["string", "list", "absent", "set", "hash", "zset", "stream"]
+    n_cell = n_round
+    for n in sizes:
+        for split in ("one-watch-command", "several-watch-commands"):
+            for kind in kinds:
+                for path in (PATHS if tier != "quick" else [None]):
+                    for rpt in range(repeats):
+                        n_cell += 1
+                        p = path or PATHS[n_cell % 4]
+                        ks = key_sets[n_cell % len(key_sets)]
+                        base = ks["wk"] if len(ks["wk"]) < 100 else ks["wk"][:40]
+                        keys = [base + b":%d" % i for i in range(n)]
+                        states = [types[(i + n_cell) % len(types)] for i in range(n)]
+                        s.begin({"kind": "multi-watch", "n": n, "split": split, "change": kind, "path": p, "key": hx(ks["wk"]), "key_class": ks["cls"]})
+                        for k, t in zip(keys, states):
+                            for stp in STATES[t]:
+                                s.do(B, subst(stp, k, b"-"))
+                        if split == "one-watch-command":
+                            s.do(A, ["WATCH"] + keys)
+                        else:
+                            i = 0
+                            while i < n:
+                                j = min(n, i + r.range(1, max(1, n // 2)))
+                                s.do(A, ["WATCH"] + keys[i:j])
+                                i = j
+                        if kind == "one-first":
+                            idx = [0]
+                        elif kind == "one-last":
+                            idx = [n - 1]
+                        elif kind == "one-random":
+                            idx = [r.below(n)]
+                        elif kind == "subset":
+                            idx = sorted(set(r.below(n) for _ in range(max(1, n // 2))))
+                            if len(idx) == n:
+                                idx = idx[:-1]
+                        elif kind == "all":
+                            idx = list(range(n))
+                        else:
+                            idx = []
+                        for i in idx:
+                            run_path(s, p, subst(CHANGE[states[i]], keys[i], b"-"))
+                        if not idx:
+                            run_path(s, p, ["SET", ks["other"], "unrelated"])
+                        st = finish_tx(s, "m")
+                        out = st["impl"].split()[0]
+                        rep.count("multi-watch.n%d.%s.%s" % (n, kind, out))
+                        rep.count("multi-watch.%s.%s" % (split, out))
+                        rep.nontrivial(("multi-watch", n, split, kind, p, out, st["model"]))
+
+
+def scenarios(s, wk, same_k, diff_k, rep, timed=True):
+    """named histories beyond the matrix; each ends with EXECs judged like every other EXEC
+    (`timed = False`: without the expiry scenarios, for a second pass with a binary key name)"""
     def begin(name):
         s.begin({"kind": "scenario", "name": name, "key": hx(wk)})
     # --- forgetting
@@ -842,6 +917,8 @@ def scenarios(s, wk, same_k, diff_k, rep):
     s.do(A, ["WATCH", wk])
     s.blocked_pop_served(B, C, wk, b"x")
     finish_tx(s, "b")
+    if not timed:
+        return
     # --- expiry by deadline.  The key must still be alive when WATCH has been answered; on a loaded machine a
     #     short deadline can pass earlier, then the attempt is abandoned (no EXEC, nothing judged) and repeated
     #     with a longer one.
@@ -1008,26 +1085,35 @@ def run_steps(s, steps):
 
 
 def reproduce_alone(rows, quirks, o, steps):
-    """does the cell fail the same way on a fresh server? (then its own steps are a minimal replay)"""
-    s = Sess(rows, "c08r", quirks)
-    try:
-        s.cell = o.get("cell")
-        run_steps(s, steps)
-        return any(x["kind"] == o["kind"] for x in s.oracle)
-    except (InternalError, Closed, ProtocolError, TimeoutError, OSError, AssertionError):
-        return False
-    finally:
-        s.close()
+    """does the cell fail the same way on a fresh server? (then its own steps are a minimal replay).  A cell without
+    waiting steps is tried up to four times: the order in which the server visits a watch list of several keys is
+    seeded per process and per map, so a defect that depends on it shows only in a fraction of the runs."""
+    cheap = not any(st["kind"] in ("sleep", "sweeper-run", "wait-sweep", "blocked-pop-served") for st in steps)
+    for _ in range(4 if cheap else 1):
+        s = Sess(rows, "c08r", quirks)
+        try:
+            s.cell = o.get("cell")
+            run_steps(s, steps)
+            if any(x["kind"] == o["kind"] for x in s.oracle):
+                return True
+        except (InternalError, Closed, ProtocolError, TimeoutError, OSError, AssertionError):
+            return False
+        finally:
+            s.close()
+    return False
 
 
 def run_round(rep, rows, quirks, r, base_db, tier, n_round):
     """one server, one model: matrix, other-key side, scenarios; then the SELECT scenarios on fresh servers.
     Returns (oracle failures, model disagreements)."""
-    wk, same_k, diff_k, other_k = pick_keys(r)
+    key_sets = pick_key_sets(r)
+    ks0 = key_sets[r.below(3)]                                      # an ASCII name for the timed scenarios
+    ksb = r.choice([k for k in key_sets if k["cls"] not in ("ascii", "utf8", "1KiB")])   # a binary one
+    wk, same_k, diff_k, other_k = ks0["wk"], ks0["same"], ks0["diff"], ks0["other"]
     s = Sess(rows, "c08", quirks, base_db)
     try:
-        # the model's shard function against the independent FNV-1a of common.py
-        for k in (wk, same_k, diff_k, PROBE):
+        # the model's shard function against the engine's (constants read from get_shard_index)
+        for k in [PROBE] + [x for ks in key_sets for x in (ks["wk"], ks["same"], ks["diff"])]:
             info = s.ask("info 0 %s" % hx(k))
             if not info.startswith("shard=%d " % shard(k)):
                 # the engine's shard function is no longer the model's (tree_shard_function refuses): the search goes on
@@ -1040,18 +1126,20 @@ def run_round(rep, rows, quirks, r, base_db, tier, n_round):
                     continue
                 for path in PATHS + SELECT_PATHS:
                     if ostate is None:
-                        cells.append((label, args, ostate, state, path, other_k, None))
+                        cells.append((label, args, ostate, state, path, "other", None))
                     else:
                         # a command with two keys: the storage function may take another branch when both keys live in
                         # one shard (rename: one lock / two locks) - both, for every state of both keys and every path
-                        cells.append((label, args, ostate, state, path, same_k, "same-shard"))
-                        cells.append((label, args, ostate, state, path, diff_k, "other-shard"))
+                        cells.append((label, args, ostate, state, path, "same", "same-shard"))
+                        cells.append((label, args, ostate, state, path, "diff", "other-shard"))
         r.shuffle(cells)
         if tier == "quick":
             budget = int(os.environ.get("VERIF_C08_CELLS", "0")) or len(cells)
             cells = cells[:budget]
-        for label, args, ostate, state, path, okey, owhere in cells:
-            st = matrix_cell(s, label, args, ostate, state, path, wk, okey, second=owhere)
+        for n_cell, (label, args, ostate, state, path, okey, owhere) in enumerate(cells):
+            ks = key_sets[n_cell % len(key_sets)]                   # every class of key name, in every cell family
+            st = matrix_cell(s, label, args, ostate, state, path, ks["wk"], ks[okey], second=owhere, key_class=ks["cls"])
+            rep.count("key-class.%s.%s" % (ks["cls"], st["impl"].split()[0]))
             if owhere:
                 rep.count("matrix.two-key.%s.second-key-%s.%s" % (label, owhere, st["impl"].split()[0]))
             rep.nontrivial((label, state, path, owhere, st["impl"].split()[0], st["model"]))
@@ -1064,11 +1152,13 @@ def run_round(rep, rows, quirks, r, base_db, tier, n_round):
         for label, args, ostate, only in COMMANDS:
             if label in ("FLUSHDB", "FLUSHALL", "SCAN", "KEYS"):
                 continue
-            for target, where in ((same_k, "same-shard"), (diff_k, "other-shard")):
+            for tname, where in (("same", "same-shard"), ("diff", "other-shard")):
                 for wstate in ("string", "absent"):
                     path = PATHS[(n_other + n_round) % 4]
+                    ks = key_sets[n_other % len(key_sets)]
+                    wk, target, other_k = ks["wk"], ks[tname], ks["other"]
                     n_other += 1
-                    s.begin({"kind": "other-key", "cmd": label, "where": where, "watched": wstate, "path": path, "key": hx(wk)})
+                    s.begin({"kind": "other-key", "cmd": label, "where": where, "watched": wstate, "path": path, "key": hx(wk), "key_class": ks["cls"]})
                     for stp in STATES[wstate]:
                         s.do(B, subst(stp, wk, other_k))
                     hs = home_state(label)
@@ -1081,6 +1171,7 @@ def run_round(rep, rows, quirks, r, base_db, tier, n_round):
                     st = finish_tx(s, "o")
                     rep.nontrivial((label, where, wstate, path, st["impl"].split()[0], st["model"]))
                     rep.count("other-key.%s.%s" % (where, st["impl"].split()[0]))
+        wk, same_k, diff_k, other_k = ks0["wk"], ks0["same"], ks0["diff"], ks0["other"]
         # flushes that cannot touch the watched key
         for label, pre in (("FLUSHDB-absent-key", []), ("FLUSHDB-other-db", [["SELECT", str((base_db + 5) % 16)]])):
             s.begin({"kind": "other-key", "cmd": label, "where": "flush", "watched": "absent" if not pre else "string", "path": "other", "key": hx(wk)})
@@ -1095,6 +1186,8 @@ def run_round(rep, rows, quirks, r, base_db, tier, n_round):
             rep.count("other-key.flush.%s" % st["impl"].split()[0])
         # ---- scenarios
         scenarios(s, wk, same_k, diff_k, rep)
+        scenarios(s, ksb["wk"], ksb["same"], ksb["diff"], rep, timed=False)
+        multi_watch_cells(s, r, rep, key_sets, tier, n_round)
         for e in [x for x in s.steps if x["kind"] == "exec" and x["c"] == A][-20:]:
             rep.nontrivial(("scenario-exec", e["impl"].split()[0], e["model"]))
         oracle = [dict(o, session_steps=s.steps) for o in s.oracle]
@@ -1104,8 +1197,9 @@ def run_round(rep, rows, quirks, r, base_db, tier, n_round):
     finally:
         s.close()
     so, sd, ev = select_scenarios(rows, quirks, wk, same_k, rep, r)
-    rep.evaluations += ev
-    return oracle + so, disagree + sd
+    so2, sd2, ev2 = select_scenarios(rows, quirks, ksb["wk"], ksb["same"], rep, r)
+    rep.evaluations += ev + ev2
+    return oracle + so + so2, disagree + sd + sd2
 
 
 def main(tier, seed):
